@@ -55,7 +55,7 @@ def install(reg, src):
 
             def at(i, j):
                 return SReal(D2V(r, FN(vs.get(i).ref), FN(vs.get(j).ref), E, sp2.PV), "npfloat")
-            return SpecFn(None, "hessian matrix", meta={"getitem": lambda ip3, key: at(*key), "shape": (n, n)})
+            return SpecFn(None, "hessian matrix", meta={"getitem": lambda ip3, key: at(*key), "shape": (n, n), "hessian_of": e})
         c.returns(lambda cc: SpecFn(call, "compiled hessian"))
 
     install_c19(reg, src)
